@@ -76,6 +76,33 @@ TEMPLATES = {
     "binop_div": "E / E",
     "pkg": "{ lib , stdenv } : stdenv . mkDerivation { pname = E ; meta = { broken = E ; } ; }",
     "letset": "{ p } : let v = E ; in { a = v ; }",
+    # canonical multi-line layouts (a marker token ⏎n = line break + n spaces before the next token)
+    "ml_set": "{ ⏎2 a = E ; ⏎2 b = E ; ⏎0 }",
+    "ml_list": "[ ⏎2 E ⏎2 E ⏎0 ]",
+    "ml_let": "let ⏎2 a = E ; ⏎2 b = E ; ⏎0 in ⏎0 E",
+    "ml_let3": "let ⏎2 a = E ; ⏎0 in ⏎0 let ⏎2 b = a ; ⏎0 in ⏎0 let ⏎2 c = b ; ⏎0 in ⏎0 c",
+    "ml_chain_update": "E ⏎0 // E ⏎0 // E",
+    "ml_chain_concat": "E ⏎0 ++ E ⏎0 ++ E",
+    "ml_chain_op_first": "E ⏎0 // ⏎2 E ⏎0 // E",
+    "ml_lambda_chain": "{ base , overrides , extra } : ⏎0 base ⏎0 // ⏎2 overrides ⏎0 // extra",
+    "ml_with_chain": "with lib ; ⏎0 a ⏎0 ++ ⏎2 b ⏎0 ++ c",
+    "ml_if": "if E ⏎0 then ⏎2 E ⏎0 else ⏎2 E",
+    "ml_lambda_set": "{ pkgs } : ⏎0 { ⏎2 a = E ; ⏎2 b = E ; ⏎0 }",
+    "ml_call_set": "f { ⏎2 a = E ; ⏎2 m = { ⏎4 x = E ; ⏎2 } ; ⏎0 }",
+    "ml_inherit": "{ ⏎2 inherit a b ; ⏎2 inherit ( E ) c ; ⏎0 }",
+    "ml_assert": "assert E ; ⏎0 E",
+    "ml_with": "with E ; ⏎0 E",
+    "ml_attrpath": "{ ⏎2 a . b = E ; ⏎2 a . c = E ; ⏎0 }",
+    "ml_istr": "{ ⏎2 s = '' ⏎4 line ⏎2 '' ; ⏎0 }",
+    "let3": "let a = E ; in let b = a ; in let c = b ; in c",
+    "let4": "let a = E ; in let b = a ; in let c = b ; in let d = c ; in d",
+    "lambda3": "a : b : c : E",
+    "with3": "with a ; with b ; with E ; x",
+    "set3": "{ a = { b = { c = E ; } ; } ; }",
+    "list3": "[ [ [ E ] ] ]",
+    "paren3": "( ( ( E ) ) )",
+    "call3": "f ( g ( h E ) )",
+    "if3": "if a then b else if c then d else if e then g else E",
 }
 OPS_HARD = None
 
@@ -213,14 +240,20 @@ def comments_line_level(text: str, lv) -> bool:
 
 
 def tokenize_template(tpl: str, fill: list):
+    """-> [(kind, word, default separator before the token)]"""
     toks = []
     k = 0
+    sep = " "
     for w in tpl.split(" "):
+        if w.startswith("⏎"):
+            sep = "\n" + " " * int(w[1:] or 0)
+            continue
         if w == "E":
-            toks.append(("E", fill[k]))
+            toks.append(("E", fill[k], sep))
             k += 1
         else:
-            toks.append(("T", w))
+            toks.append(("T", w, sep))
+        sep = " "
     return toks
 
 
@@ -231,11 +264,13 @@ def default_sep(prev: str, cur: str) -> str:
 def render(toks, slot=None, filler=None, lead="", trail="\n"):
     parts = []
     n = len(toks)
-    for i, (_k, w) in enumerate(toks):
+    for i, tok in enumerate(toks):
+        w = tok[1]
+        sep = tok[2] if len(tok) > 2 else " "
         if i == 0:
             parts.append(filler if slot == 0 else lead)
         else:
-            parts.append(filler if slot == i else " ")
+            parts.append(filler if slot == i else sep)
         parts.append(w)
     parts.append(filler if slot == n else trail)
     text = "".join(parts)
@@ -249,6 +284,21 @@ def glue(text: str) -> str:
 
 def hole_count(tpl: str) -> int:
     return sum(1 for w in tpl.split(" ") if w == "E")
+
+
+def adapt_filler(f, tok):
+    """A filler placed in a gap whose canonical separator is a line break keeps the line structure:
+    the comment / blank lines go before the token's own line break and indentation."""
+    sep = tok[2] if len(tok) > 2 else " "
+    if not sep.startswith("\n"):
+        return f
+    if f in ("", " ", "  ", "\t"):
+        return None  # would join two lines: a different program shape (covered by the one-line templates)
+    body = f.rstrip(" \n") if f.strip() else ""
+    if f.strip():
+        lead = " " if not f.startswith("\n") else "\n" + sep[1:]
+        return lead + f.strip(" \n") + sep
+    return f.rstrip(" ") + sep[1:] if f.count("\n") else sep
 
 
 def base_programs(tier: str):
@@ -278,8 +328,8 @@ def _singles(toks, text):
     b = text
     pos = 0
     gaps = []
-    for _k, w in toks:
-        w2 = w
+    for tok in toks:
+        w2 = tok[1]
         idx = b.find(w2, pos)
         if idx < 0:
             return []
@@ -299,9 +349,9 @@ def _singles(toks, text):
 def _ctx_for(toks, slot, f):
     """Byte position of the filler of `slot` in the rendered variant and its CST context."""
     pre = []
-    for i, (_k, w) in enumerate(toks[:slot]):
-        pre.append("" if i == 0 else " ")
-        pre.append(w)
+    for i, tok in enumerate(toks[:slot]):
+        pre.append("" if i == 0 else (tok[2] if len(tok) > 2 else " "))
+        pre.append(tok[1])
     prefix = glue("".join(pre))
     text = glue(render(toks, slot, f))
     # glue() may have removed one space right before the filler position
@@ -327,7 +377,12 @@ def programs(tier: str, seed: int = 0):
         slots = range(len(toks) + 1)
         for slot in slots:
             fillers = FILLERS if full else FILLERS[4:12:2]
-            for f in fillers:
+            for f0 in fillers:
+                f = f0
+                if 0 < slot < len(toks):
+                    f = adapt_filler(f0, toks[slot])
+                    if f is None:
+                        continue
                 text = glue(render(toks, slot, f))
                 if text in seen:
                     continue
@@ -340,7 +395,7 @@ def programs(tier: str, seed: int = 0):
                 pos = len(glue(render(toks[:slot], None, None, trail="")).encode("utf-8")) if slot else 0
                 if slot and slot < len(toks):
                     pass
-                yield dict(id=f"{name}|{fid}|s{slot}|{FILLERS.index(f)}", text=text, template=name, slot=slot, filler=f,
+                yield dict(id=f"{name}|{fid}|s{slot}|{FILLERS.index(f0)}", text=text, template=name, slot=slot, filler=f0,
                            ctx=_ctx_for(toks, slot, f))
     if tier == "thorough-multi":  # not used by the registered checks (see DESIGN.md: unstable known-finding signatures)
         rnd = random.Random(seed)
@@ -424,8 +479,13 @@ def signature(prog, symptom: str) -> str:
         lca, prev, nxt = prog["ctx"]
         prev = "expr" if prev in _EXPR_END else prev
         nxt = "expr" if nxt in _EXPR_START else nxt
+        if symptom.endswith(":comment-body-drifts"):
+            return f"{symptom}|{filler_class(prog.get('filler'))}"
         return f"{symptom}|in={lca}|after={prev}|before={nxt}|{filler_class(prog.get('filler'))}"
-    return f"{symptom}|canon|{prog['template']}|{prog['id'].split('|')[1]}"
+    fill = prog["id"].split("|")[1]
+    if "=" in fill:
+        return f"{symptom}|canon|fill={fill.split('=', 1)[1]}"
+    return f"{symptom}|canon|{prog['template']}"
 
 
 def signature_old(prog, symptom: str) -> str:
@@ -468,7 +528,7 @@ def faults(tier):
     token boundary, truncation at every byte, each with surrounding whitespace variants."""
     seen = set()
     for name, toks, text in seed_programs(tier):
-        words = [w for _k, w in toks]
+        words = [t[1] for t in toks]
         cands = []
         for i in range(len(words)):
             cands.append(("del", " ".join(words[:i] + words[i + 1:])))
